@@ -45,6 +45,9 @@ type Check struct {
 	QuickBudget, ThoroughBudget time.Duration
 	// Serial checks run in one process.
 	Serial bool
+	// RaceFilter: for checks running in a -race binary, a reported data race is a
+	// violation if one of its frames is in one of these packages (nil = any).
+	RaceFilter []string
 	// ReportAs is the property id used in VIOLATION lines, replay and evidence
 	// files when this check is one part of a property's check (default: ID).
 	ReportAs string
@@ -384,6 +387,50 @@ func WorkerMain(id, tier string, shard, n int, deadline time.Time) int {
 	return 0
 }
 
+func lastLine(out []byte) []byte {
+	lines := strings.Split(strings.TrimSpace(string(out)), "\n")
+	return []byte(lines[len(lines)-1])
+}
+
+// parseRaces turns the race detector's reports into violations.
+func parseRaces(stderr string, filter []string, prop string) (out []*ViolationRec) {
+	seen := map[string]bool{}
+	for _, rep := range strings.Split(stderr, "WARNING: DATA RACE")[1:] {
+		if i := strings.Index(rep, "=================="); i >= 0 {
+			rep = rep[:i]
+		}
+		relevant := filter == nil
+		var funcs []string
+		for _, l := range strings.Split(rep, "\n") {
+			l = strings.TrimSpace(l)
+			if strings.HasPrefix(l, "github.com/mimecast/dtail/internal/") && strings.Contains(l, "(") {
+				fn := strings.TrimPrefix(l[:strings.LastIndex(l, "(")], "github.com/mimecast/dtail/")
+				if len(funcs) < 2 {
+					funcs = append(funcs, fn)
+				}
+				for _, f := range filter {
+					if strings.HasPrefix(fn, f) {
+						relevant = true
+					}
+				}
+			}
+		}
+		if !relevant {
+			continue
+		}
+		sig := "data-race:" + strings.Join(funcs, "+")
+		if seen[sig] {
+			continue
+		}
+		seen[sig] = true
+		if len(rep) > 3000 {
+			rep = rep[:3000]
+		}
+		out = append(out, &ViolationRec{Property: prop, Sig: sig, Msg: "the race detector reports unsynchronised accesses (free-running -race pass):" + rep})
+	}
+	return
+}
+
 var hangGrace = 120 * time.Second
 
 type lockedBuf struct {
@@ -465,7 +512,7 @@ func CheckMain(id, tier string) int {
 		go func(i int) {
 			defer wg.Done()
 			cmd := exec.Command(self, "worker", id, tier, strconv.Itoa(i), strconv.Itoa(n), strconv.FormatInt(deadline.UnixNano(), 10))
-			cmd.Env = append(os.Environ(), "GOMAXPROCS=2")
+			cmd.Env = append(os.Environ(), "GOMAXPROCS=2", "GORACE=exitcode=0")
 			var stderr, stdout lockedBuf
 			cmd.Stderr = &stderr
 			cmd.Stdout = &stdout
@@ -486,6 +533,15 @@ func CheckMain(id, tier string) int {
 				err = <-waitCh
 			}
 			out := []byte(stdout.String())
+			if races := parseRaces(stderr.String(), ch.RaceFilter, reportID(ch)); len(races) > 0 {
+				r := &wres{}
+				if e2 := json.Unmarshal(lastLine(out), r); e2 != nil {
+					r = &wres{}
+				}
+				r.Violations = append(r.Violations, races...)
+				results[i] = r
+				return
+			}
 			if err != nil {
 				// harvest the violations reported before the crash / hang
 				var vs []*ViolationRec
